@@ -108,6 +108,8 @@ def _one_case(rng, k, force=None):
             metric = {"type": "callable", "id": "rates_vec", "kwargs": kw}
         elif r < 0.86:
             metric = {"type": "callable", "id": "counts_mat", "kwargs": {"threshold": enc(thr[0])}}
+        elif r < 0.89:      # a metric following NumPy's out= convention: the same preallocated array is returned by every call
+            metric = {"type": "callable", "id": "rates_buf", "kwargs": {"threshold": enc(thr[0])}}
         elif r < 0.92:      # count-valued metric of unsigned dtype
             metric = {"type": "callable", "id": "counts_u16", "kwargs": {"threshold": enc(thr[0])}}
         else:
@@ -156,7 +158,7 @@ def _one_case(rng, k, force=None):
     # history: further calls on the SAME object with the same metric and kwarg names but other values
     # (scalar -> scalar -> array threshold, another scale)
     more = []
-    if "threshold" in metric["kwargs"] and metric.get("id") not in ("rates_vec", "counts_mat", "counts_u16") and rng.random() < force.get("history", 0.3):
+    if "threshold" in metric["kwargs"] and metric.get("id") not in ("rates_vec", "counts_mat", "counts_u16", "rates_buf") and rng.random() < force.get("history", 0.3):
         more.append(dict(metric["kwargs"], threshold=enc(_threshold(rng, pool))))
         if rng.random() < 0.6:
             more.append(dict(metric["kwargs"], threshold=[enc(_threshold(rng, pool)) for _ in range(rng.choice([1, 2]))]))
@@ -261,7 +263,14 @@ def run_impl(case):
         return type(src)(pos=p, neg=n, nb_easy_pos=src.nb_easy_pos, nb_easy_neg=src.nb_easy_neg,
                          score_class=src.score_class, equal_class=src.equal_class)
 
+    _buf = np.zeros(3)
+
+    def rates_buf(s, threshold):
+        _buf[0], _buf[1], _buf[2] = s.tpr(threshold), s.fpr(threshold), s.tpr(threshold) - s.fpr(threshold)
+        return _buf
+
     callables = {
+        "rates_buf": rates_buf,
         "tpr_c": lambda s, threshold: s.tpr(threshold),
         "rates_vec": lambda s, threshold, scale=1.0: scale * np.array([s.tpr(threshold), s.fpr(threshold)]),
         "counts_mat": lambda s, threshold: np.array([[int(np.sum(s.pos >= threshold)), int(np.sum(s.neg >= threshold))],
@@ -320,7 +329,7 @@ def run_impl(case):
         def direct(sample):
             if m["type"] == "name":
                 return np.asarray(getattr(sample, m["name"])(**kwargs))   # the metric `name` of that object
-            return np.asarray(metric(sample, **kwargs))
+            return np.array(metric(sample, **kwargs), copy=True)
 
         def run(target, which):
             counter, cfg = make_config()
